@@ -381,7 +381,35 @@ func runPVSS(c *vf.Check, gn string, n, t int) {
 							return
 						}
 						accepted := pvss.VerifyDecShare(suite, G, s.X[i], s.enc[i], s.dec[i]) == nil
+						// batch verification and recovery: the altered share is left out, the caller's slices stay as they were
+						Xin := append([]kyber.Point{}, s.X...)
+						Ein := append([]*pvss.PubVerShare{}, s.enc...)
+						Din := append([]*pvss.PubVerShare{}, s.dec...)
+						intact := func(what string) bool {
+							for k := range Xin {
+								if s.X[k] != Xin[k] || s.enc[k] != Ein[k] || s.dec[k] != Din[k] {
+									x.Failf(pk+"/batch-clobbers-input", "%s: %s rearranged the caller's X / encShares / decShares slices", id, what)
+									return false
+								}
+							}
+							return true
+						}
+						if D, err := pvss.VerifyDecShareBatch(suite, G, s.X, s.enc, s.dec); err == nil {
+							if !intact("VerifyDecShareBatch") {
+								return
+							}
+							if !accepted {
+								for _, d := range D {
+									if d == Din[i] {
+										x.Failf(pk+"/altered-dec-in-batch", "%s: the altered decrypted share is in the output of VerifyDecShareBatch", id)
+									}
+								}
+							}
+						}
 						got, err := pvss.RecoverSecret(suite, G, s.X, s.enc, s.dec, uint32(t), uint32(n))
+						if !intact("RecoverSecret") {
+							return
+						}
 						if err == nil && !bytes.Equal(fmod.Enc(got), want) {
 							x.Failf(pk+"/altered-dec-poisons-recovery", "%s: with the decrypted share of trustee %d altered (passes VerifyDecShare: %v), RecoverSecret returns a value that is not secret*G", id, i, accepted)
 							return
